@@ -97,9 +97,16 @@ CANDIDATE_DEFECT_KEYS = {
     'multiclass-binary-average-positive-class-from-set-order':
         'multiclass input, average=binary (the default), no vocab: the positive class is the '
         'first element of set(labels) of the batch  [C01]',
-    'macro-binary-indicator-merge-demands-vocab':
-        'ConfusionMatrixAggFn.merge_states demands a vocab for macro average on binary / '
-        'multiclass-indicator input, which never use one  [C01]',
+    'macro-merge-needs-vocab-for-fixed-position-encodings':
+        'ConfusionMatrixAggFn.merge_states demands a vocab for macro average also on binary / '
+        'multiclass-indicator input, whose class positions are fixed by the encoding and '
+        'which never read the vocab (third audit aggregates/round3/hunt_2.py)  [C01, C11]',
+    'fixed-size-sample-merge-small-operand-into-large-receiver':
+        'FixedSizeSample._merge_reservoirs draws from the operand with probability n_other / '
+        '(n_self + n_other) of the REVIEWED counts: an operand of smaller max_size that '
+        'reviewed more than it holds is drawn from more often than it has samples -> '
+        'ValueError(high <= 0) with the receiver already half popped (third audit '
+        'aggregates/round3/hunt_3.py; scenario reservoir_unequal)  [C01, C11]',
     'mean-variance-drops-batch-containing-inf':
         'Mean / MeanAndVariance / Var.merge take an operand whose mean / variance is NaN for '
         'an empty one: a batch holding +-inf is dropped with its finite values and its '
@@ -980,7 +987,7 @@ VOCABS = {'str': STR_VOCAB, 'int': INT_VOCAB, 'pair_int': PAIR_INT_VOCAB,
 
 KEY_NO_VOCAB = 'multiclass-without-vocab-batch-dependent'
 KEY_BINARY_AVG = 'multiclass-binary-average-positive-class-from-set-order'
-KEY_MACRO_MERGE = 'macro-binary-indicator-merge-demands-vocab'
+KEY_MACRO_MERGE = 'macro-merge-needs-vocab-for-fixed-position-encodings'
 # violation kinds of C01 that compare a batched / sharded history with one batch
 _BATCHING_KINDS = ('result_mismatch', 'batched_add_raises', 'merge_raises', 'result_raises',
                    'per_row_value_depends_on_batch')
@@ -1101,8 +1108,10 @@ class ConfusionMatrixAd(_LabelData, Adapter):
     # second audit round: configurations of C01 only
     #  'all'  = every rate (also the tn-based ones) although the vocabulary is
     #           deduced from the data; the classes drift along the dataset
-    if metrics == 'all' or (not vocab and (
-        average == 'macro' or (average == 'binary' and self.needs_vocab))):
+    # (macro without vocab on binary / indicator input - class positions fixed by
+    #  the encoding - is a configuration of both checks: third audit round)
+    if metrics == 'all' or (not vocab and self.needs_vocab
+                            and average in ('macro', 'binary')):
       self.checks = ('C01',)
     self.drift = metrics == 'all'
     self.n_classes = 2 if (input_type == 'multiclass-indicator'
@@ -1162,19 +1171,30 @@ class ConfusionMatrixAd(_LabelData, Adapter):
         return KEY_NO_VOCAB      # per-class vectors of different classes are added
       if diffs and not any(_tn_free_leaf(p) for p, _, _ in diffs):
         return KEY_NO_VOCAB      # micro: tn counts the classes of the batch
-    if (not self.needs_vocab and self.average == 'macro' and not self.with_vocab
-        and kind == 'merge_raises' and _vocab_refusal(exc)):
+    if (self.fixed_positions_macro_no_vocab and 'merge' in kind
+        and kind.endswith('_raises') and _vocab_refusal(exc)):
+      # input class: macro average, no vocab, an encoding that fixes the class
+      # positions by itself (binary: [pos_label, rest]; indicator: the columns);
+      # event: a merge (merge_states) refused for want of a vocab
       return KEY_MACRO_MERGE
     return super().mechanism(kind, diffs, exc, rows)
 
+  @property
+  def fixed_positions_macro_no_vocab(self):
+    return (not self.needs_vocab and self.average == 'macro' and not self.with_vocab)
+
   def accepts_refusal(self, exc, step):
-    # A ValueError that names the missing vocab is the documented way out: the
-    # class docstring says a vocab is "required if computed distributed ... and the
-    # average is macro" (for every input type; upstream pins it for the default
-    # binary input), so a macro MERGE without vocab may be refused as well.
+    # A ValueError that names the missing vocab is the documented way out where a
+    # vocab has a job: the class docstring requires one "if computed distributed
+    # ... and the average is macro where the class id mapping needs to be stable",
+    # i.e. for the encodings that map labels to columns through a vocabulary
+    # (multiclass / multiclass-multioutput). Binary and indicator input never
+    # read the vocab - the mapping is stable by construction - so the same
+    # refusal is not accepted there (third audit round; it used to be).
+    del step
     if not _vocab_refusal(exc) or self.with_vocab:
       return False
-    return self.needs_vocab or (self.average == 'macro' and step == 'merge')
+    return self.needs_vocab
 
 
 class SamplewiseAd(_LabelData, Adapter):
